@@ -35,6 +35,14 @@ def _start_coverage():
     mon.set_events(mon.COVERAGE_ID, mon.events.LINE)
 
 
+def _gen_prims():
+    try:
+        from . import gen
+        return gen.PRIMS_USED
+    except Exception:
+        return {}
+
+
 def _worker(job):
     prop, tier, seed, cfg, canary = job
     if canary is None:
@@ -81,7 +89,9 @@ def _worker(job):
             "prims": dict(st.PRIMS_USED), "generic": sorted(alg.GENERIC_POSITION)[:20],
             "side": solve.STATS["side_conditions"][:50], "z3s": solve.STATS["z3_seconds"],
             "z3q": solve.STATS["z3_queries"], "z3_confirmed": ctx.z3_confirmed, "bounded": ctx.bounded,
-            "wall": time.time() - t0, "error": err, "rewritten": getattr(ctx, "rewritten", []), "cov": sorted(_COV)}
+            "wall": time.time() - t0, "error": err, "rewritten": getattr(ctx, "rewritten", []), "cov": sorted(_COV),
+            "generic_done": getattr(ctx, "generic_done", []), "generic_skipped": getattr(ctx, "generic_skipped", []),
+            "gprims": dict(_gen_prims())}
 
 
 def _child(job, conn):
